@@ -23,7 +23,7 @@ AS = [
     "exact duplicates (same name and same hashes twice) only in the in-memory containers: what a file format stores is C10's subject; mixtures of num and scaled sketches in one list are left to C12 (select)",
     "`sourmash search` (Jaccard) aborts with ValueError('varN <0.0!') from the ANI estimate on some small sketches: finding D16 of C17 reaching the command line; those runs are skipped and counted (coverage.oracle_stats.cli_skipped)",
     "RevIndex is not in this build (sourmash.index.revindex needs the symbol revindex_free, absent from the library built from /repo)",
-    "errors on an EMPTY indexed database (SBT.select: StopIteration; SqliteIndex.find: TypeError) and on a query that is empty after downsampling (SqliteIndex: ValueError from max()) are not documented refusals; they cannot hide a match (the answer is necessarily empty) and are accepted and counted (coverage.loud_but_empty)",
+    "errors on an EMPTY indexed database (SBT.select: StopIteration; SqliteIndex.find: TypeError) are not documented refusals; they cannot hide a match (the answer is necessarily empty) and are accepted and counted (coverage.loud_but_empty)",
 ]
 RULE = ("one case = 0..25 sketches (shared core of hashes placed on / next to the max_hash thresholds of the scaled values in play, 2^63 and 2^64-1; "
         "empty sketches, same content under two names, abundance-tracking subjects), 2-3 queries (finer / equal / coarser scaled, a database entry itself, num, "
